@@ -293,7 +293,9 @@ def input_immutability(ctx, rep, cfgs=None):
         lazies = [r_.fn for r_ in P.roles('lazy')]
         strings = set()
         for r_ in P.roles('lazy'):
-            strings |= {o for o in pts.pts.get(('p', r_.fn.name, r_.args['src']), set()) if o[0] in ('ext', 'extdeep')}
+            strings |= {o for o in pts.pts.get(('p', r_.fn.name, r_.args['src']), set()) if o[0] in ('ext', 'extdeep')
+                        and not (o[0] == 'extdeep' and o[1] in P.defined and P.defined[o[1]].params[o[2]]['ty'] != 'i8*')}
+            # (what a public *struct* parameter points to deep down - the word strings of a language handle given to the debug self-test - is table data, not an input string)
         rep.instances(len(strings), 2, 'string input objects')
         lazy_closure = set()
         for lz in lazies: lazy_closure |= set(P.reachable_from([lz.name]))
